@@ -48,6 +48,46 @@ theorem discordance_eq [NeZero m] [NeZero n] (A : Mat m n α) (o : Vec n Obj) (a
       · exact absurd ((discMask_iff _ _ _).mp hh) hb
     simp [hb, this]
 
+/-- concordance lies between 0 and the total weight (non-negative weights) -/
+theorem concordance_bounds (A : Mat m n α) (o : Vec n Obj) (w : Vec n α) (hw : ∀ j, 0 ≤ w j) (a b : Fin m) (c : α)
+    (h : concordance A o w a b = some c) : 0 ≤ c ∧ c ≤ ∑ j, w j := by
+  unfold concordance at h
+  split at h
+  · cases h
+  · cases h
+    rw [sumFin_eq_sum]
+    constructor
+    · exact sum_nonneg fun j _ => by split <;> [exact hw j; exact le_refl 0]
+    · exact sum_le_sum fun j _ => by split <;> [exact le_refl _; exact hw j]
+
+/-- discordance lies in `[0, 1]`: no adverse difference exceeds the largest criterion range -/
+theorem discordance_unit [NeZero m] [NeZero n] (A : Mat m n α) (o : Vec n Obj) (a b : Fin m) (d : α)
+    (hr : 0 < maxRange A) (h : discordance A o a b = some d) : 0 ≤ d ∧ d ≤ 1 := by
+  unfold discordance at h
+  split at h
+  · cases h
+  · cases h
+    rw [maxFin_div _ _ hr]
+    have hcell : ∀ j, absv (if discMask (o j) (A a j) (A b j) then A b j - A a j else 0) ≤ maxRange A := by
+      intro j
+      rw [absv_eq_abs]
+      have hcol : |A b j - A a j| ≤ (maxFin fun i => A i j) - (minFin fun i => A i j) := by
+        have h1 := le_maxFin (fun i => A i j) a; have h2 := le_maxFin (fun i => A i j) b
+        have h3 := minFin_le (fun i => A i j) a; have h4 := minFin_le (fun i => A i j) b
+        rw [abs_le]; constructor <;> linarith
+      have hmr : (maxFin fun i => A i j) - (minFin fun i => A i j) ≤ maxRange A :=
+        le_maxFin (fun j => (maxFin fun i => A i j) - (minFin fun i => A i j)) j
+      split
+      · exact le_trans hcol hmr
+      · simpa using hr.le
+    constructor
+    · apply div_nonneg _ hr.le
+      have := le_maxFin (fun j => absv (if discMask (o j) (A a j) (A b j) then A b j - A a j else 0)) 0
+      refine le_trans ?_ this
+      rw [absv_eq_abs]; exact abs_nonneg _
+    · rw [div_le_one hr, maxFin_le_iff]
+      exact hcell
+
 /-- ELECTRE1: `a` outranks `b` exactly when concordance ≥ p and discordance ≤ q (never itself) -/
 theorem electre1_outrank_iff [NeZero m] [NeZero n] (A : Mat m n α) (o : Vec n Obj) (w : Vec n α) (p q : α) (a b : Fin m) :
     electre1Outrank A o w p q a b = true ↔
